@@ -27,13 +27,13 @@ func (c *Ctx) funcsInFile(suffix string) []*ssa.Function {
 
 // reviewed bounds obligations that rest on an invariant established elsewhere (keyed by function + operation)
 var reviewedBounds = map[string]string{
-	"http2.curGoroutineID|*":  "debug aid, only reachable with DEBUG_HTTP2_GOROUTINES=1",
-	"http2.parseUintBytes|*":  "debug aid, only reachable with DEBUG_HTTP2_GOROUTINES=1",
+	"http2.curGoroutineID|*": "debug aid, only reachable with DEBUG_HTTP2_GOROUTINES=1",
+	"http2.parseUintBytes|*": "debug aid, only reachable with DEBUG_HTTP2_GOROUTINES=1",
 	"http2.splitHeaderBlock|phi(p1|phi@[builtin.len(phi(phi@|phi@[:16384])):])[builtin.len(phi(phi(p1|phi@[builtin.len(phi@):])|phi(p1|phi@[builtin.len(phi@):])[:16384])):]": "frag is headerBlock or headerBlock[:maxFrameSize] (under len > maxFrameSize), so len(frag) <= len(headerBlock); needs a length-of-phi argument the prover does not make",
 	"http2.readFrameHeader|*": "both callers pass a frameHeaderLen (9) byte buffer: Framer.headerBuf[:] ([9]byte) and a fhBytes pool buffer (pool New: make([]byte, frameHeaderLen))",
 	"(*http2.MetaHeadersFrame).PseudoValue|p0.Fields[(1 + phi((1 + phi@)|-1))].Name[1:]": "guarded by hf.IsPseudo() (x/net hpack: len(Name) != 0 && Name[0] == ':')",
-	"(*http2.SettingsFrame).Setting|p0.p[(6 * p1):((6 * p1) + 2)]":       "accessor contract: callers pass 0 <= i < NumSettings() = len(p)/6 (checked for the in-repo callers by C19.R7)",
-	"(*http2.SettingsFrame).Setting|p0.p[((6 * p1) + 2):((6 * p1) + 6)]": "accessor contract: callers pass 0 <= i < NumSettings() = len(p)/6 (checked for the in-repo callers by C19.R7)",
+	"(*http2.SettingsFrame).Setting|p0.p[(6 * p1):((6 * p1) + 2)]":                       "accessor contract: callers pass 0 <= i < NumSettings() = len(p)/6 (checked for the in-repo callers by C19.R7)",
+	"(*http2.SettingsFrame).Setting|p0.p[((6 * p1) + 2):((6 * p1) + 6)]":                 "accessor contract: callers pass 0 <= i < NumSettings() = len(p)/6 (checked for the in-repo callers by C19.R7)",
 }
 
 func boundsRule(r *R, rule string, fns []*ssa.Function, minSites int) {
